@@ -40,6 +40,27 @@ def dvOracle (want2 : List Rat) (best : Float) (o : List String) : String :=
       | _, _, _ => "pass"
     go 0 want2 ws ms
 
+/-- `rayOracle` for the Minkowski-sum box of the shape-cast visitor: the visitor builds the box from the centre / half-extents of
+`ls_aabb2`, so its faces carry a rounding error of a few ulps; a reported entry time is only rejected when it exceeds the first
+time at which the ray is CLEARLY inside the exact box (by the positional tolerance), whatever the speed of the ray -/
+def rayOracleT (lanes : List (List (Rat × Rat × Rat × Rat))) (maxToi : Rat) (o : List String) : String :=
+  let r := rayOracle lanes maxToi o
+  if !(r.startsWith "fail lane-" && (r.splitOn "-tmin-exceeds-first-contact").length == 2) then r else
+  let i := ((r.drop 10).takeWhile Char.isDigit).toNat!
+  match lanes[i]?, (o[2 * i + 1]?).bind FloatIO.ofHex? with
+  | some ax, some tf =>
+    let scale : Rat := 1 + ax.foldl (fun s (mn, mx, o, _) => s + rabs mn + rabs mx + rabs o) 0
+    let tol : Rat := scale / 100000000
+    match rayWitness ax maxToi tol with
+    | some w => if q tf ≤ w + tol * (1 + rabs w) then rayOracleT' lanes maxToi o i else r
+    | none => rayOracleT' lanes maxToi o i
+  | _, _ => r
+where
+  /-- judge the remaining lanes after an excused lane `i` -/
+  rayOracleT' (lanes : List (List (Rat × Rat × Rat × Rat))) (maxToi : Rat) (o : List String) (i : Nat) : String :=
+    let r2 := rayOracle (lanes.drop (i + 1)) maxToi (o.drop (2 * (i + 1)))
+    if r2 == "pass" then "pass" else if (r2.splitOn "-tmin-exceeds-first-contact").length == 2 then "skip tie several-grazing-lanes" else r2
+
 /-! ## 2-D heightfield grid lookups -/
 
 def prep {α} (p : P α) : Nat → P (List α)
@@ -296,7 +317,7 @@ def handler3 (fn : String) : Option Handler :=
           if !((ab :: x).all fun b => valid3 (qb3 b)) then "skip invalid-box" else
           let A := qb3 ab; let d := q3 v; let t := q td
           -- the Minkowski-sum box by its definition: { p1 - p2 } enlarged by the target distance, against the ray from the origin
-          rayOracle (x.map fun u => let U := qb3 u
+          rayOracleT (x.map fun u => let U := qb3 u
             [(U.mins.x - A.maxs.x - t, U.maxs.x - A.mins.x + t, 0, d.x), (U.mins.y - A.maxs.y - t, U.maxs.y - A.mins.y + t, 0, d.y),
              (U.mins.z - A.maxs.z - t, U.maxs.z - A.mins.z + t, 0, d.z)]) (q mt) o }
   | "tv2_visit" => some {
@@ -307,7 +328,7 @@ def handler3 (fn : String) : Option Handler :=
         | some (ab, v, mt, td, x) =>
           if !((ab :: x).all fun b => valid2 (qb2 b)) then "skip invalid-box" else
           let A := qb2 ab; let d := q2 v; let t := q td
-          rayOracle (x.map fun u => let U := qb2 u
+          rayOracleT (x.map fun u => let U := qb2 u
             [(U.mins.x - A.maxs.x - t, U.maxs.x - A.mins.x + t, 0, d.x), (U.mins.y - A.maxs.y - t, U.maxs.y - A.mins.y + t, 0, d.y)]) (q mt) o }
   | "dv2_visit" => some {
       model := fun a => run (do let ab ← pbox2; let best ← pf; let x ← p4 pbox2
